@@ -115,6 +115,8 @@ class BinaryData:
 
     def close_and_add_segment(self, fjm_writer: Writer) -> None:
         if self.next_wflip_address == self.first_address:
+            # an empty segment adds nothing, but its address must still be an address (its labels point there)
+            assert_address_in_memory(self.memory_width, self.first_address)
             return
 
         add_segment_to_fjm(
